@@ -309,6 +309,18 @@ func runC02(t *testing.T, r *kit.Run) {
 		_ = msg
 		return
 	}
+	// 1 run in 6: a second scanner works on another file at the same time in the same process (two overlapping scans
+	// must not share anything); its result is compared with its own 1-decoder reference
+	var f2 *pbfwire.File
+	var ref2 scanRes
+	if r.Tape.Chance(1, 6) && !hasBig(f) {
+		f2 = pbfwire.Gen(r.Tape, pbfwire.Opts{MinBlocks: 2, MaxBlocks: 8, Procs: 2, AlwaysHeader: true})
+		ref2 = runScan(t, scanCfg{data: f2.Data, procs: 1, cut: -1, errAt: -1, sched: kit.SchedCfg{Seed: 1, Flat: true}, maxObj: len(f2.Objects()) + 20})
+		r.Out.Evals++
+		if sym, _ := symptom(&ref2); sym != "" || ref2.err != nil {
+			f2 = nil
+		}
+	}
 	var execs []map[string]interface{}
 	nexec := 3
 	if hasBig(f) {
@@ -326,6 +338,10 @@ func runC02(t *testing.T, r *kit.Run) {
 			cfg.fNode = func(n *osm.Node) bool { simrt.Note("cb", int(n.ID)); return true }
 			cfg.fWay = func(w *osm.Way) bool { simrt.Note("cb", int(w.ID)); return true }
 			cfg.fRel = func(x *osm.Relation) bool { simrt.Note("cb", int(x.ID)); return true }
+		}
+		if f2 != nil {
+			cfg.twin = &scanCfg{data: f2.Data, procs: drawProcsAll(r.Tape)}
+			r.Out.Probe("two-overlapping-scanners")
 		}
 		res := runScan(t, cfg)
 		ooo := outOfOrder(f, &res)
@@ -382,6 +398,22 @@ func runC02(t *testing.T, r *kit.Run) {
 			if s := snapshot(o); s != res.snaps[i] {
 				r.Out.Violate("C02/retained-object-modified", "%s: object %d was %s at delivery and is %s after the scan", desc, i, res.snaps[i], s)
 				break
+			}
+		}
+		if tw := res.twin; tw != nil {
+			d2 := desc + fmt.Sprintf("; a second scanner (%d decoders) was scanning another %d-block file at the same time", cfg.twin.procs, len(f2.Blocks))
+			switch {
+			case !tw.closeOK:
+				r.Out.Violate("C02/overlapping-scanners/second-scan-did-not-finish", "%s", d2)
+			case tw.err != nil || len(tw.snaps) != len(ref2.snaps):
+				r.Out.Violate("C02/overlapping-scanners/lost-or-duplicated", "%s: the second scan alone delivers %d objects, here %d (err=%v)", d2, len(ref2.snaps), len(tw.snaps), tw.err)
+			default:
+				for i := range ref2.snaps {
+					if tw.snaps[i] != ref2.snaps[i] {
+						r.Out.Violate("C02/overlapping-scanners/object-differs", "%s: object %d of the second scan: alone %s, here %s", d2, i, ref2.snaps[i], tw.snaps[i])
+						break
+					}
+				}
 			}
 		}
 	}
